@@ -43,6 +43,8 @@ MANIFEST = {
 
 FINDING_PARTIAL = "C18-multifile-partial"
 FINDING_COLLISION = "C18-basename-collision"
+FINDING_SELFCOPY = "C18-path-content-self-copy"
+NOBODY = 65534
 VALID_FORMATS = ("parser_mode", "yaml", "json", "json_indented")
 
 
@@ -99,6 +101,15 @@ def build_parser(sc):
         from jsonargparse import ActionJsonSchema
 
         p.add_argument("--schema", action=ActionJsonSchema(schema={"type": "object", "properties": {"a": {"type": "integer"}}}))
+    if sc.get("jsonnet") is not None:
+        from jsonargparse import ActionJsonnet
+
+        p.add_argument("--jn", action=ActionJsonnet())
+    if sc.get("pathcontent") is not None:
+        from jsonargparse.typing import Path_fr
+
+        p.add_argument("--pth", type=Optional[Path_fr], default=None)
+        p.save_path_content.add("pth")
     return p
 
 
@@ -121,17 +132,22 @@ def plain(v):
     return v
 
 
-def write_inputs(sc, in_dir):
+def write_inputs(sc, in_dir, out_dir):
     """write the main input config and the sub-files it refers to; returns the path of the main input"""
     import yaml
 
     vals = sc.get("values", {})
 
-    def put(rel, data):
-        path = os.path.join(in_dir, rel)
+    def put(rel, data, raw=False, base=in_dir):
+        path = os.path.join(base, rel)
         os.makedirs(os.path.dirname(path), exist_ok=True)
-        with open(path, "w") as f:
-            f.write(yaml.safe_dump(data, sort_keys=False, allow_unicode=True) if not rel.endswith(".json") else json.dumps(data))
+        with open(path, "wb") as f:
+            if raw:
+                f.write(data.encode("utf-8"))
+            elif rel.endswith(".json"):
+                f.write(json.dumps(data).encode())
+            else:
+                f.write(yaml.safe_dump(data, sort_keys=False, allow_unicode=True).encode("utf-8"))
 
     main = {}
     for k, _ in TOP_LEAVES:
@@ -159,8 +175,33 @@ def write_inputs(sc, in_dir):
     if sc.get("schema") is not None:
         put(sc["schema"]["file"], {"a": 1})
         main["schema"] = sc["schema"]["file"]
+    if sc.get("jsonnet") is not None:
+        put(sc["jsonnet"]["file"], sc["jsonnet"]["text"], raw=True)
+        main["jn"] = sc["jsonnet"]["file"]
+    if sc.get("pathcontent") is not None:
+        pc = sc["pathcontent"]
+        if pc.get("dir") == "out" and out_dir != in_dir:
+            put(pc["file"], pc["content"], raw=True, base=out_dir)
+            main["pth"] = os.path.join(out_dir, pc["file"])
+        else:
+            put(pc["file"], pc["content"], raw=True)
+            main["pth"] = pc["file"]
     put(sc.get("main_in", "main_in.yaml"), main)
     return os.path.join(in_dir, sc.get("main_in", "main_in.yaml"))
+
+
+def input_names(sc):
+    """names (relative to the input directory) of the files write_inputs creates"""
+    out = {sc.get("main_in", "main_in.yaml")}
+    for s in sc["subs"]:
+        if s.get("file"):
+            out.add(s["file"])
+        if s.get("inner") and s["inner"].get("file"):
+            out.add(os.path.join(os.path.dirname(s["file"]) if s.get("file") else "", s["inner"]["file"]))
+    for k in ("dict", "schema", "jsonnet", "pathcontent"):
+        if sc.get(k):
+            out.add(sc[k]["file"])
+    return out
 
 
 def apply_fault(cfg, fault):
@@ -206,6 +247,27 @@ def snap_diff(before, after):
     return out
 
 
+def sub_snapshot(snap, prefix):
+    """the part of a snapshot below directory `prefix`, names made relative to it"""
+    files, dirs = snap
+    pre = prefix + os.sep
+    return ({n[len(pre):]: v for n, v in files.items() if n.startswith(pre)}, {d[len(pre):] for d in dirs if d.startswith(pre)})
+
+
+def fs_view(snap, out_prefix, extra):
+    """model view of a snapshot of the case directory: top-level regular files of the output directory under
+    their basename + the files in `extra` ({relative name in the case dir: model name})"""
+    files, _ = snap
+    out = []
+    pre = out_prefix + os.sep
+    for n, v in files.items():
+        if n.startswith(pre) and os.sep not in n[len(pre):]:
+            out.append([n[len(pre):], v[2].decode("utf-8")])
+        elif n in extra:
+            out.append([extra[n], v[2].decode("utf-8")])
+    return sorted(out)
+
+
 def classify_exc(ex):
     from jsonargparse._util import PathError
 
@@ -226,11 +288,14 @@ def classify_exc(ex):
         return "unserialisable"
     if isinstance(ex, TypeError):
         return "invalid"
+    if isinstance(ex, OSError):
+        return "os"
     return "other:" + type(ex).__name__
 
 
 def canon_cfg(v):
     from jsonargparse import Namespace
+    from jsonargparse._util import Path
 
     if isinstance(v, Namespace):
         return {"ns": {k: canon_cfg(x) for k, x in sorted(vars(v).items()) if not k.startswith("__")}}
@@ -240,6 +305,14 @@ def canon_cfg(v):
         return [canon_cfg(x) for x in v]
     if isinstance(v, enum.Enum):
         return {"enum": v.name}
+    if isinstance(v, Path):
+        # a path whose content save() copies: the value is the name + what the file holds
+        try:
+            with open(v.absolute, "rb") as f:
+                content = f.read().decode("utf-8", "replace")
+        except OSError:
+            content = None
+        return {"path": os.path.basename(str(v)), "content": content}
     if v is None or isinstance(v, (bool, int, str)):
         return v
     return {"repr": repr(v)}
@@ -312,10 +385,6 @@ class OpenPatch:
 
 
 # ---------------------------------------------------------------- one case on the real code + reference plan
-def target_path(sc, out_dir):
-    return os.path.join(out_dir, sc["target"])
-
-
 def save_kwargs(sc):
     kw = {}
     if sc.get("overwrite") is not None:
@@ -332,29 +401,32 @@ def setup_dirs(sc, case_dir):
     os.makedirs(out_dir)
     in_dir = out_dir if sc.get("same_dir") else os.path.join(case_dir, "in")
     os.makedirs(in_dir, exist_ok=True)
-    main_in = write_inputs(sc, in_dir)
     for name, content in sc.get("pre", {}).items():
         with open(os.path.join(out_dir, name), "wb") as f:
             f.write(content.encode("utf-8"))
     for name in sc.get("predirs", []):
         os.makedirs(os.path.join(out_dir, name), exist_ok=True)
+    main_in = write_inputs(sc, in_dir, out_dir)
     return in_dir, out_dir, main_in
 
 
-def reference_plan(parser, cfg, sc, out_dir):
+def reference_plan(parser, cfg, sc, case_dir, out_dir):
     """what save() has to compute for this config, obtained through the public API only
-    (validate, dump, dump_using_format) on a SEPARATE copy of the config; returns the model input"""
+    (validate, dump, dump_using_format) on a SEPARATE copy of the config; returns the model input and
+    {file in the case dir: model name} for copied sources outside the output directory"""
     from jsonargparse import Namespace, strip_meta
     from jsonargparse._loaders_dumpers import dump_using_format
+    from jsonargparse._util import Path
 
     fmt = sc.get("format") or "parser_mode"
     fmt_ok = fmt in VALID_FORMATS
     multi = sc.get("multifile") is not False
     inp = {"path": sc["target"], "overwrite": sc.get("overwrite"), "multifile": sc.get("multifile"), "format_ok": fmt_ok,
            "validate_ok": True, "subs": [], "wr": {"open": True, "write": True}}
+    extra = {}
     if not fmt_ok:
         inp["dump"] = {"fail": "format"}
-        return inp
+        return inp, extra
 
     def outcome(fn):
         try:
@@ -372,33 +444,46 @@ def reference_plan(parser, cfg, sc, out_dir):
             inp["dump"] = {"fail": "invalid"}
         else:
             inp["dump"] = outcome(lambda: parser.dump(cfg.clone(), format=fmt))
-        return inp
+        return inp, extra
     inp["validate_ok"] = valid
     c = cfg.clone()
+    real_out = os.path.realpath(out_dir)
     for key in my_sorted_keys(c):
         val = c[key]
         if isinstance(val, (Namespace, dict)) and "__path__" in val:
             name = os.path.basename(val["__path__"].absolute)
-            raw = strip_meta(val)
-            if isinstance(raw, Namespace):
-                raw = raw.as_dict()
-            sub_fmt = "json_indented" if name.lower().endswith(".json") else fmt
-            inp["subs"].append({"path": name, "kind": "cfg", "key": key, "text": outcome(lambda: dump_using_format(parser, raw, sub_fmt)),
-                                "wr": {"open": True, "write": True}})
+            if "__orig__" in val:
+                text = {"text": val["__orig__"]}
+            else:
+                raw = strip_meta(val)
+                if isinstance(raw, Namespace):
+                    raw = raw.as_dict()
+                sub_fmt = "json_indented" if name.lower().endswith(".json") else fmt
+                text = outcome(lambda: dump_using_format(parser, raw, sub_fmt))
+            inp["subs"].append({"path": name, "kind": "cfg", "key": key, "text": text, "wr": {"open": True, "write": True}})
+            c[key] = name
+        elif isinstance(val, Path) and key in parser.save_path_content and "r" in val.mode:
+            name = os.path.basename(val.absolute)
+            src_real = os.path.realpath(val.absolute)
+            if os.path.dirname(src_real) == real_out:
+                src = os.path.basename(src_real)
+            else:
+                src = "<src>/" + os.path.basename(src_real)
+                extra[os.path.relpath(src_real, os.path.realpath(case_dir))] = src
+            inp["subs"].append({"path": name, "kind": "content", "key": key, "src": src, "read_ok": True, "wr": {"open": True, "write": True}})
             c[key] = name
     inp["dump"] = outcome(lambda: parser.dump(c, format=fmt, skip_validation=True))
-    return inp
+    return inp, extra
 
 
-def add_env_and_fs(inp, sc, before):
-    files, dirs = before
-    inp["fs"] = sorted([n, b[2].decode("utf-8")] for n, b in files.items() if os.sep not in n)
+def add_env(inp, before_out, ro=False):
+    _, dirs = before_out
     top_dirs = sorted(d for d in dirs if os.sep not in d)
     noparent = []
     for p in [inp["path"]] + [s["path"] for s in inp["subs"]]:
         if os.sep in p and os.path.dirname(p) not in dirs:
             noparent.append(p)
-    inp["env"] = {"noparent": noparent, "ro": [], "nonfile": top_dirs}
+    inp["env"] = {"noparent": noparent, "ro": [inp["path"]] + [s["path"] for s in inp["subs"]] if ro else [], "nonfile": top_dirs}
 
 
 def add_write_fault(inp, fault):
@@ -413,61 +498,126 @@ def add_write_fault(inp, fault):
         slots[k]["open" if fault["kind"] == "open" else "write"] = False
 
 
-def run_case(sc, fault, root):
-    """returns dict(real=…, model_in=…, before=…, after=…, …) for one scenario + fault"""
+class Scen:
+    """one scenario on disk: directories, parsers and the loaded configuration are set up once and shared by all the
+    faults injected into it (every run gets deep copies of the configuration and a freshly rebuilt directory)"""
+
+    def __init__(self, sc, root):
+        self.sc = sc
+        self.case_dir = tempfile.mkdtemp(dir=root)
+        self.fresh = False
+        self.reset()
+        self.parser = build_parser(sc)
+        self.cfg = self.parser.parse_path(self.main_in)
+        self.parser2 = build_parser(sc)
+        self.cfg2 = self.parser2.parse_path(self.main_in)
+        self.parser3 = build_parser(sc)
+
+    def reset(self):
+        if self.fresh:
+            return
+        for n in os.listdir(self.case_dir):
+            shutil.rmtree(os.path.join(self.case_dir, n), ignore_errors=True)
+        self.in_dir, self.out_dir, self.main_in = setup_dirs(self.sc, self.case_dir)
+        self.fresh = True
+
+    def close(self):
+        shutil.rmtree(self.case_dir, ignore_errors=True)
+
+
+def prepare(scn, fault, ro=False):
+    """rebuild the directories, copy the configuration (one copy for save, one for the reference), build the model input"""
     from jsonargparse import strip_meta
 
-    case_dir = tempfile.mkdtemp(dir=root)
-    try:
-        in_dir, out_dir, main_in = setup_dirs(sc, case_dir)
-        parser = build_parser(sc)
-        cfg = parser.parse_path(main_in)
-        apply_fault(cfg, fault)
-        # reference plan on an independently loaded copy
-        parser2 = build_parser(sc)
-        cfg2 = parser2.parse_path(main_in)
-        apply_fault(cfg2, fault)
-        before = snapshot(case_dir)
-        before_out = snapshot(out_dir)
-        model_in = reference_plan(parser2, cfg2, sc, out_dir)
-        add_env_and_fs(model_in, sc, before_out)
-        add_write_fault(model_in, fault)
-        expected_cfg = canon_cfg(strip_meta(cfg.clone()))
-        target = target_path(sc, out_dir)
-        exc = None
-        patch_kind = fault["kind"] if fault.get("kind") in ("open", "write") else "none"
-        with OpenPatch(out_dir, patch_kind, fault.get("k", -1)) as op:
-            try:
-                parser.save(cfg, target, **save_kwargs(sc))
-                outcome = "ok"
-            except Exception as ex:  # noqa: BLE001 - the class is the observation
-                outcome = classify_exc(ex)
-                exc = "%s: %s" % (type(ex).__name__, str(ex)[:160])
-        after = snapshot(case_dir)
-        after_out = snapshot(out_dir)
-        reparsed = None
-        reparse_err = None
-        if outcome == "ok":
-            try:
-                reparsed = canon_cfg(build_parser(sc).parse_path(target, with_meta=False))
-            except Exception as ex:  # noqa: BLE001
-                reparse_err = "%s: %s" % (type(ex).__name__, str(ex)[:200])
-        real_fs = None
+    sc = scn.sc
+    scn.reset()
+    scn.fresh = False
+    cfg = copy.deepcopy(scn.cfg)
+    apply_fault(cfg, fault)
+    cfg2 = copy.deepcopy(scn.cfg2)
+    apply_fault(cfg2, fault)
+    before = snapshot(scn.case_dir)
+    out_prefix = os.path.relpath(scn.out_dir, scn.case_dir)
+    model_in, extra = reference_plan(scn.parser2, cfg2, sc, scn.case_dir, scn.out_dir)
+    model_in["fs"] = fs_view(before, out_prefix, extra)
+    add_env(model_in, sub_snapshot(before, out_prefix), ro)
+    add_write_fault(model_in, fault)
+    return {"sc": sc, "fault": fault, "case_dir": scn.case_dir, "out_dir": scn.out_dir, "parser": scn.parser, "parser3": scn.parser3, "cfg": cfg,
+            "before": before, "model_in": model_in, "extra": extra, "out_prefix": out_prefix,
+            "expected_cfg": canon_cfg(strip_meta(copy.deepcopy(cfg)))}
+
+
+def execute(st):
+    sc, fault = st["sc"], st["fault"]
+    target = os.path.join(st["out_dir"], sc["target"])
+    exc = None
+    patch_kind = fault["kind"] if fault.get("kind") in ("open", "write") else "none"
+    with OpenPatch(st["out_dir"], patch_kind, fault.get("k", -1)) as op:
         try:
-            real_fs = sorted([n, b[2].decode("utf-8")] for n, b in after_out[0].items() if os.sep not in n)
-        except UnicodeDecodeError:
-            real_fs = "undecodable"
-        return {"outcome": outcome, "exc": exc, "before": before, "after": after, "before_out": before_out, "after_out": after_out,
-                "model_in": model_in, "real_fs": real_fs, "expected_cfg": expected_cfg, "reparsed": reparsed, "reparse_err": reparse_err,
-                "writes": op.writes, "out_prefix": os.path.relpath(out_dir, case_dir)}
+            st["parser"].save(st["cfg"], target, **save_kwargs(sc))
+            outcome = "ok"
+        except Exception as ex:  # noqa: BLE001 - the class is the observation
+            outcome = classify_exc(ex)
+            exc = "%s: %s" % (type(ex).__name__, str(ex)[:160])
+    after = snapshot(st["case_dir"])
+    reparsed = None
+    reparse_err = None
+    if outcome == "ok":
+        try:
+            reparsed = canon_cfg(st["parser3"].parse_path(target, with_meta=False))
+        except Exception as ex:  # noqa: BLE001
+            reparse_err = "%s: %s" % (type(ex).__name__, str(ex)[:200])
+    try:
+        real_fs = fs_view(after, st["out_prefix"], st["extra"])
+    except UnicodeDecodeError:
+        real_fs = "undecodable"
+    return {"outcome": outcome, "exc": exc, "before": st["before"], "after": after,
+            "before_out": sub_snapshot(st["before"], st["out_prefix"]), "after_out": sub_snapshot(after, st["out_prefix"]),
+            "model_in": st["model_in"], "real_fs": real_fs, "expected_cfg": st["expected_cfg"], "reparsed": reparsed,
+            "reparse_err": reparse_err, "writes": op.writes, "out_prefix": st["out_prefix"]}
+
+
+_LAST = {"key": None, "scn": None}
+
+
+def run_case(sc, fault, root):
+    key = json.dumps(sc, sort_keys=True, default=repr) + root
+    if _LAST["key"] != key:
+        if _LAST["scn"] is not None:
+            _LAST["scn"].close()
+        _LAST["key"], _LAST["scn"] = key, Scen(sc, root)
+    return execute(prepare(_LAST["scn"], fault))
+
+
+def run_readonly_cases(cases, root):
+    """the same, with the process running as an unprivileged user for whom the output directory is not writeable
+    (the sandbox runs as root, for whom os.access(W_OK) is always true)"""
+    os.chmod(root, 0o755)
+    scens = [Scen(sc, root) for sc, _ in cases]
+    states = [prepare(scn, f, ro=True) for scn, (_, f) in zip(scens, cases)]
+    for scn in scens:
+        os.chmod(scn.case_dir, 0o755)
+    results = []
+    os.setresuid(NOBODY, NOBODY, 0)
+    try:
+        for st in states:
+            results.append(execute(st))
     finally:
-        shutil.rmtree(case_dir, ignore_errors=True)
+        os.setresuid(0, 0, 0)
+        for scn in scens:
+            scn.close()
+        os.chmod(root, 0o700)
+    return results
 
 
 # ---------------------------------------------------------------- the oracle (real code only)
 def has_collision(model_in):
     names = [s["path"] for s in model_in["subs"]] + [os.path.basename(model_in["path"])]
     return len(set(names)) != len(names)
+
+
+def has_self_copy(model_in):
+    return any(s["kind"] == "content" and s.get("src") == s["path"] for s in model_in["subs"])
 
 
 def judge(res, sc, fault):
@@ -485,23 +635,22 @@ def judge(res, sc, fault):
         if changed:
             out.append((None, "overwrite not requested but existing file(s) changed: %s" % [rel(n) for n in changed]))
     # files outside the output directory are never touched
-    outside = [n for n in diff if not (n.startswith(pref + os.sep) or n.startswith("dir:" + pref))]
+    outside = [n for n in diff if not (n.startswith(pref + os.sep) or n.startswith("dir:" + pref + os.sep))]
     if outside:
         out.append((None, "save changed files outside the target directory: %s" % outside))
     # (b) failure -> nothing changed
     if res["outcome"] != "ok":
         if diff:
             subs = [s["path"] for s in mi["subs"]] if multi else []
-            # which sub-file step fails (reference): first sub whose text fails / whose open or write is injected to fail /
-            # that is refused; sub-files strictly before it are the ones the open finding allows to remain
+            # the open finding allows exactly the sub-files written BEFORE the failing step to remain
             allowed = set()
-            fail_at = failing_slot(mi, res)
+            fail_at = failing_slot(mi)
             if multi and fail_at is not None and fail_at >= 1:
                 allowed = set(subs[:fail_at])
             io_file = None
             if res["outcome"] == "io":
                 # OS failing in the middle of a write, after open succeeded: outside the property, that one file is truncated
-                slots = subs + [mi["path"]]
+                slots = subs + [os.path.basename(mi["path"])]
                 io_file = slots[fault["k"]] if fault.get("kind") == "write" and fault["k"] < len(slots) else None
             rest = [n for n in diff_out if n not in allowed and n != io_file]
             if rest:
@@ -510,14 +659,18 @@ def judge(res, sc, fault):
                 out.append((FINDING_PARTIAL, "multi-file save failed (%s) after %d sub-file(s) were written: %s stay written"
                             % (res["outcome"], fail_at, sorted(n for n in diff_out if n != io_file))))
     else:
-        # (c) round trip
+        # (c) round trip (a Path whose content is saved counts with its content)
         if res["reparse_err"] is not None or res["reparsed"] != res["expected_cfg"]:
-            fid = FINDING_COLLISION if (multi and has_collision(mi)) else None
+            fid = None
+            if multi and has_collision(mi):
+                fid = FINDING_COLLISION
+            elif multi and has_self_copy(mi) and sc.get("overwrite") is True:
+                fid = FINDING_SELFCOPY
             out.append((fid, "saved path does not re-parse to the configuration (%s)" % (res["reparse_err"] or "values differ")))
     return out
 
 
-def failing_slot(mi, res):
+def failing_slot(mi):
     """index of the sub-file step at which the reference expects the multi-file save to fail
     (len(subs) = at the final dump / target write); None = no failure expected inside/after save_paths"""
     if mi.get("multifile") is False or not mi["format_ok"] or not mi["validate_ok"]:
@@ -525,8 +678,11 @@ def failing_slot(mi, res):
     existing = {n for n, _ in mi["fs"]}
     nonfile = set(mi["env"]["nonfile"])
     ow = mi.get("overwrite") is True
+    if mi["path"] in nonfile or mi["path"] in mi["env"]["noparent"] or mi["path"] in mi["env"]["ro"] or (not ow and mi["path"] in existing):
+        return None
     for i, s in enumerate(mi["subs"]):
-        if s["path"] in nonfile or (not ow and s["path"] in existing) or "fail" in s["text"] or not s["wr"]["open"] or not s["wr"]["write"]:
+        bad_text = "fail" in s.get("text", {}) or (s["kind"] == "content" and s["src"] not in existing)
+        if s["path"] in nonfile or (not ow and s["path"] in existing) or bad_text or not s["wr"]["open"] or not s["wr"]["write"]:
             return i
         existing.add(s["path"])
     if "fail" in mi["dump"] or not mi["wr"]["open"] or not mi["wr"]["write"]:
@@ -535,7 +691,7 @@ def failing_slot(mi, res):
 
 
 # ---------------------------------------------------------------- generators
-NAMES = ["main.yaml", "s1.yaml", "s2.yaml", "s3.json", "inner.yaml", "d.yaml", "schema.json", "other.txt", "config.yaml", "notes.md"]
+NAMES = ["main.yaml", "s1.yaml", "s2.yaml", "s3.json", "inner1.yaml", "d.yaml", "schema.json", "file.txt", "other.txt", "config.yaml", "notes.md"]
 CONTENTS = ["", "precious\n", "a: 5\n", "x: 1\ny: [1, 2]\n", "été → ünï\n", "{\"k\": 1}", "line1\r\nline2\r\n", "\tTabbed\n\n", "0" * 300]
 STRS = ["abc", "hello world", "été", "v1", ""]
 
@@ -552,7 +708,7 @@ def gen_value(rng, kind):
     return rng.choice([None, 3, "abc", [1, 2], {"k": 1}, True])
 
 
-def gen_scenario(rng, allow_collision=False):
+def gen_scenario(rng):
     n_subs = rng.choice([0, 1, 1, 2, 2, 3])
     files = ["s1.yaml", "s2.yaml", "s3.json"]
     subs = []
@@ -562,68 +718,70 @@ def gen_scenario(rng, allow_collision=False):
             s["inner"] = {"file": "inner%d.yaml" % (i + 1) if rng.random() < 0.7 else None}
         subs.append(s)
     sc = {"subs": subs, "dict": {"file": "d.yaml"} if rng.random() < 0.3 else None,
-          "schema": {"file": "schema.json"} if rng.random() < 0.15 else None}
-    if allow_collision and n_subs >= 2 and subs[0]["file"] and subs[1]["file"]:
-        subs[0]["file"] = "a/x.yaml"
-        subs[1]["file"] = "b/x.yaml"
+          "schema": {"file": "schema.json"} if rng.random() < 0.15 else None,
+          "jsonnet": {"file": "jn.jsonnet", "text": rng.choice(['{"c": 3, "d": 4}', "{c: 1 + 2,\n d: 'x'}\n"])} if rng.random() < 0.1 else None,
+          "pathcontent": None}
+    sc["same_dir"] = rng.random() < 0.25
+    sc["multifile"] = rng.choice([None, True, True, False])
+    if rng.random() < 0.15 and sc["multifile"] is not False:
+        # - a source in the output directory itself (dir=out, or inputs next to the target) would be copied onto itself:
+        #   open finding C18-path-content-self-copy, exercised from the corpus only
+        # - single-file mode writes the relative path as given, which a config saved elsewhere does not resolve (C19's subject)
+        # - the copy goes through text mode (universal newlines): sources without carriage returns
+        sc["pathcontent"] = {"file": "file.txt", "content": rng.choice([c for c in CONTENTS[1:] if "\r" not in c]), "dir": "in"}
+        sc["same_dir"] = False
     vals = {}
     for k, kind in leaf_keys(sc):
         if rng.random() < 0.6:
             v = gen_value(rng, kind)
             if v is not None or kind != "enum":
                 vals[k] = v
-    # an Enum member is only interesting (raw dump fails) now and then; keep most scenarios savable
+    # an Enum member in a sub-file (raw dump fails) only now and then; keep most scenarios savable
     if rng.random() < 0.75:
         vals = {k: v for k, v in vals.items() if not (isinstance(v, dict) and "enum" in v and "." in k)}
     sc["values"] = vals
     sc["format"] = rng.choice([None, None, "yaml", "json", "json_indented", "parser_mode"])
     if rng.random() < 0.03:
         sc["format"] = "bogus"
-    sc["multifile"] = rng.choice([None, True, True, False, False])
     sc["overwrite"] = rng.choice([None, False, True, True])
-    sc["same_dir"] = rng.random() < 0.25
     r = rng.random()
-    if r < 0.75:
+    if r < 0.78:
         sc["target"] = "main.yaml"
-    elif r < 0.85:
+    elif r < 0.90:
         sc["target"] = rng.choice(["config.yaml", "main_in.yaml" if sc["same_dir"] else "other.txt"])
-    elif r < 0.92:
+    elif r < 0.95:
         sc["target"] = "nodir/main.yaml"
     else:
         sc["target"] = "adir"
     pre = {}
-    possible = [n for n in NAMES] + [sc["target"]]
-    for n in possible:
-        if os.sep in n:
-            continue
-        if rng.random() < 0.45:
+    for n in NAMES:
+        if rng.random() < 0.4:
             pre[n] = rng.choice(CONTENTS)
+    if sc["overwrite"] is not True and sc["target"] in pre and rng.random() < 0.7:
+        del pre[sc["target"]]          # keep the immediate refusal of the target a minority
     sc["pre"] = pre
     sc["predirs"] = []
     if sc["target"] == "adir":
         sc["predirs"].append("adir")
-        pre.pop("adir", None)
-    if rng.random() < 0.08:
+    if rng.random() < 0.08 and not sc["same_dir"]:
         d = rng.choice(["s1.yaml", "s2.yaml", "d.yaml"])
-        if not sc["same_dir"]:
-            sc["predirs"].append(d)
-            pre.pop(d, None)
+        sc["predirs"].append(d)
+        pre.pop(d, None)
     if sc["same_dir"]:
-        # the inputs ARE the pre-existing files; do not clobber them when setting up
-        inputs = {sc.get("main_in", "main_in.yaml")}
-        for s in subs:
-            if s.get("file"):
-                inputs.add(s["file"])
-            if s.get("inner") and s["inner"].get("file"):
-                inputs.add(s["inner"]["file"])
-        if sc["dict"]:
-            inputs.add("d.yaml")
-        if sc["schema"]:
-            inputs.add("schema.json")
-        for n in inputs:
+        # the inputs ARE pre-existing files of the output directory
+        for n in input_names(sc):
             pre.pop(n, None)
-        sc["predirs"] = [d for d in sc["predirs"] if d not in inputs and d != "a" and d != "b"]
     return sc
+
+
+def early_reject(sc):
+    """save is refused before it looks at the configuration (static)"""
+    if sc.get("format") not in (None,) + VALID_FORMATS:
+        return True
+    if sc["target"] in ("nodir/main.yaml", "adir"):
+        return True
+    exists = sc["target"] in sc.get("pre", {}) or (sc.get("same_dir") and sc["target"] in input_names(sc))
+    return exists and sc.get("overwrite") is not True
 
 
 def all_faults(sc, n_writes):
@@ -650,8 +808,8 @@ def count_writes(sc):
         for s in sc["subs"]:
             n += 1 if s.get("file") else 0
             n += 1 if s.get("inner") and s["inner"].get("file") else 0
-        n += 1 if sc.get("dict") else 0
-        n += 1 if sc.get("schema") else 0
+        for k in ("dict", "schema", "jsonnet", "pathcontent"):
+            n += 1 if sc.get(k) else 0
     return n
 
 
@@ -660,11 +818,12 @@ def model_fs(m):
     return sorted([p, c] for p, c in m["fs"])
 
 
-def process(ctx: Ctx, cases, root, origin):
+def process(ctx: Ctx, cases, root, origin, readonly=False):
     """run the real code on every (scenario, fault), the model in one batch; correspondence + oracle"""
-    results = []
-    for sc, fault in cases:
-        results.append(run_case(sc, fault, root))
+    if readonly:
+        results = run_readonly_cases(cases, root)
+    else:
+        results = [run_case(sc, fault, root) for sc, fault in cases]
     lines = [r["model_in"] for r in results]
     model = None
     try:
@@ -682,6 +841,9 @@ def process(ctx: Ctx, cases, root, origin):
         ctx.hist("overwrite", {None: "default", True: "on", False: "off"}[sc.get("overwrite")])
         ctx.hist("fault", fault["kind"])
         ctx.hist("subfiles", len(mi["subs"]))
+        if res["outcome"] != "ok":
+            fa = failing_slot(mi)
+            ctx.hist("failure_position", "before-first-write" if not fa else ("after-%d-subfile-writes" % min(fa, 3)))
         if res["before_out"][0] and mi["format_ok"] and res["outcome"] != "path":
             ctx.nontrivial(json.dumps([sc, fault], sort_keys=True, default=repr))
         # --- correspondence
@@ -693,29 +855,35 @@ def process(ctx: Ctx, cases, root, origin):
                     ctx.tie_break("correspondence E7 (save effect model vs ArgumentParser.save) disagrees",
                                   json.dumps({"scenario": sc, "fault": fault, "real": {"outcome": res["outcome"], "exc": res["exc"], "fs": res["real_fs"]},
                                               "model": {"outcome": m.get("outcome"), "fs": model_fs(m)}}, ensure_ascii=True, default=repr)[:1900])
+            # the finding classifier of the oracle must be the complement of the partial theorem's hypothesis
+            # (class io = the OS failing after an open succeeded is never "by the first open")
+            if m.get("outcome") not in ("ok", "io", None) and m.get("outcome") == res["outcome"] and bool(m.get("early")) != (not failing_slot(mi)):
+                ctx.tie_break("oracle's failure-position classifier disagrees with Jap.Save.failsByFirstOpen",
+                              json.dumps({"scenario": sc, "fault": fault, "early": m.get("early"), "failing_slot": failing_slot(mi)}, default=repr)[:1500])
         # --- oracle
         for fid, desc in judge(res, sc, fault):
             if fid is not None and ctx.is_open(fid):
                 ctx.known(fid, desc)
             else:
-                ctx.violation("save: " + desc, {"kind": "oracle", "origin": origin, "scenario": sc, "fault": fault, "what": desc,
+                ctx.violation("save: " + desc, {"kind": "oracle", "origin": origin, "scenario": sc, "fault": fault, "what": desc, "readonly": readonly,
                                                "before": snap_sig(res["before_out"]), "after": snap_sig(res["after_out"]), "exc": res["exc"]})
     return disagreements
 
 
 def run(ctx: Ctx):
     repo_python_path()
-    ctx.rule = ("scenario = parser with 0-3 ActionParser sub-configs (optionally nested, each loaded from its own sub-file or inline), optional dict "
-                "and jsonschema sub-files, values, format, multifile in {omitted,True,False}, overwrite in {omitted,False,True}, target (new, existing, "
-                "missing parent, a directory), pre-existing files of arbitrary content, inputs next to or away from the target; for every scenario a "
-                "failure is injected at EACH step (invalid value at each typed key, unserialisable value at each Any key, Enum at each enum key, k-th open "
-                "fails, k-th write fails) plus the fault-free run; each (scenario, fault) runs the real parser.save in a temp dir and the Lean model; "
-                "non-trivial = output directory holds >=1 pre-existing file and save gets past the format/path checks; distinct by JSON of (scenario, fault)")
+    ctx.rule = ("scenario = parser with 0-3 ActionParser sub-configs (optionally nested, each loaded from its own sub-file or inline), optional dict, "
+                "jsonschema, jsonnet (__orig__) and save_path_content sub-files, values, format, multifile in {omitted,True,False}, overwrite in "
+                "{omitted,False,True}, target (new, existing, missing parent, a directory, parent not writeable), pre-existing files of arbitrary content, "
+                "inputs next to or away from the target; for every scenario a failure is injected at EACH step (invalid value at each typed key, "
+                "unserialisable value at each Any key, Enum at each enum key, k-th open fails, k-th write fails) plus the fault-free run; each "
+                "(scenario, fault) runs the real parser.save in a temp dir and the Lean model; non-trivial = output directory holds >=1 pre-existing "
+                "file and save gets past the format/path checks; distinct by JSON of (scenario, fault)")
     ctx.assumptions = [
         "validation / serialisation outcomes and the dump texts are inputs of the model; the reference obtains them from parser.validate, parser.dump and dump_using_format on a separately loaded copy",
         "local file system only (no fsspec/URL), no symlinks, nobody else writes to the directory during save",
         "an OS failure in the middle of write() after a successful open (class io) is outside the property; the model and the harness still track it",
-        "parent-directory permission failures (Path mode c) are modelled (Env.roParent) but not exercised: the sandbox runs as root",
+        "save_path_content copies go through text mode: sources are UTF-8 text without carriage returns (newline translation is outside the model)",
     ]
     ctx.lean_build(extractors=["save_order"])
 
@@ -729,18 +897,36 @@ def run(ctx: Ctx):
                 corpus_cases.append((c["scenario"], f))
         dis = process(ctx, corpus_cases, root, "corpus")
 
-        n_scen = ctx.budget(60, 700) * ctx.search_boost
-        cases = []
-        for _ in range(n_scen):
-            sc = gen_scenario(ctx.rng)
-            faults = all_faults(sc, count_writes(sc))
-            if not ctx.thorough and len(faults) > 14:
-                faults = [faults[0]] + ctx.rng.sample(faults[1:], 13)
-            for f in faults:
-                cases.append((sc, f))
-        for sc, f in cases[:3]:
-            ctx.sample({"scenario": sc, "fault": f})
-        dis += process(ctx, cases, root, "generated")
+        def batch(n_scen, origin):
+            cases = []
+            per_scen = 40 if ctx.thorough else 12
+            for _ in range(n_scen):
+                sc = gen_scenario(ctx.rng)
+                faults = all_faults(sc, count_writes(sc))
+                limit = 2 if early_reject(sc) else per_scen
+                if len(faults) > limit:
+                    faults = [faults[0]] + ctx.rng.sample(faults[1:], limit - 1)
+                for f in faults:
+                    cases.append((sc, f))
+                if len(ro_cases) < ctx.budget(12, 60) and sc["target"] == "main.yaml":
+                    ro_cases.append((sc, faults[-1]))
+            for sc, f in cases[:3]:
+                ctx.sample({"scenario": sc, "fault": f})
+            return process(ctx, cases, root, origin)
+
+        ro_cases = []
+        n_scen = ctx.budget(220, 1200)
+        dis += batch(n_scen, "generated")
+        if ctx.tie_broken and not any(v["found_input"] for v in ctx.violations):
+            # a tie is broken and no failing input yet: search harder
+            extra = n_scen * (ctx.search_boost - 1) if not ctx.thorough else n_scen
+            dis += batch(extra, "generated-boosted")
+            n_scen += extra
+        if os.getuid() == 0:
+            dis += process(ctx, ro_cases, root, "generated-readonly", readonly=True)
+            ctx.extra["readonly_parent_cases"] = len(ro_cases)
+        else:
+            ctx.assumptions.append("not running as root: the parent-not-writeable cases were skipped")
         ctx.extra["scenarios"] = n_scen
         ctx.extra["correspondence_disagreements"] = dis
 
@@ -773,7 +959,10 @@ def replay(ctx: Ctx, body):
         return 1
     root = tempfile.mkdtemp(prefix="c18-")
     try:
-        res = run_case(rp["scenario"], rp["fault"], root)
+        if rp.get("readonly"):
+            res = run_readonly_cases([(rp["scenario"], rp["fault"])], root)[0]
+        else:
+            res = run_case(rp["scenario"], rp["fault"], root)
         verdicts = judge(res, rp["scenario"], rp["fault"])
         print("outcome:", res["outcome"], res["exc"])
         print("before :", json.dumps(snap_sig(res["before_out"])))
